@@ -234,3 +234,31 @@ pub fn block_cache(
         Arc<crate::tables::block::DataBlockReader>,
     >::new(capacity))
 }
+
+static LEVEL1_MAX_BYTES: std::sync::atomic::AtomicU64 = std::sync::atomic::AtomicU64::new(0);
+static LEVEL_MULTIPLIER_PERCENT: std::sync::atomic::AtomicU64 =
+    std::sync::atomic::AtomicU64::new(1000);
+
+/// Scale down the size limits of levels 1..=5 (default: 10 MiB for level 1, ten times more per
+/// level) so that a bounded exploration can fill the deeper levels. `level1_bytes == 0` restores
+/// the defaults.
+pub fn set_level_size_limits(level1_bytes: u64, multiplier_percent: u64) {
+    LEVEL1_MAX_BYTES.store(level1_bytes, std::sync::atomic::Ordering::SeqCst);
+    LEVEL_MULTIPLIER_PERCENT.store(multiplier_percent, std::sync::atomic::Ordering::SeqCst);
+}
+
+pub(crate) fn level_size_limit(level: usize) -> Option<f64> {
+    let base = LEVEL1_MAX_BYTES.load(std::sync::atomic::Ordering::SeqCst);
+    // the last level keeps its default: it is never compacted further
+    if base == 0 || level + 1 >= crate::config::MAX_NUM_LEVELS {
+        return None;
+    }
+    let mult = LEVEL_MULTIPLIER_PERCENT.load(std::sync::atomic::Ordering::SeqCst) as f64 / 100.;
+    let mut result = base as f64;
+    let mut level = level;
+    while level > 1 {
+        result *= mult;
+        level -= 1;
+    }
+    Some(result)
+}
